@@ -86,7 +86,13 @@ func (t *TraceWriter) write(e Ev) {
 	}
 	t.w.Write(b)
 	t.w.WriteByte('\n')
+	if flushEach {
+		t.w.Flush()
+	}
 }
+
+// VERIF_FLUSH=1 flushes after every event, so that the log survives a crash in a library goroutine
+var flushEach = os.Getenv("VERIF_FLUSH") != ""
 
 func (t *TraceWriter) Emit(e Ev) {
 	t.n++
